@@ -446,7 +446,9 @@ def main(tier, replay=None):
                     totals["masked"] += 1
                 if o["dev"]:
                     totals["devcases"] += 1
-                flip = 1 if (alter and fam == "range" and i == alter) else 0
+                flip = 0
+                if alter and fam == "range" and i >= alter and not o["mask"] and not totals.get("altered"):
+                    totals["altered"] = flip = 1
                 if fam == "rec":
                     spells = ["named"]
                 elif tier == "quick" and fam in ("alt", "ex2", "ex3"):
